@@ -28,7 +28,15 @@ def run_tests(d, paths):
         n += 1
         if tid in stable and any(ch.tag in ('failure', 'error', 'skipped') for ch in tc):
             bad.append(tid)
-    return n, bad
+    # a stable_pass test that fails in the loaded parallel run is re-run alone before it counts (xdist / shared-file flakiness)
+    still = []
+    for tid in bad[:10]:
+        cls_, name = tid.split('::', 1)
+        node = cls_.replace('.', '/') + '.py::' + name
+        p = subprocess.run(['/venv/bin/python', '-m', 'pytest', '-q', '-p', 'no:cacheprovider', '--timeout=900', node], cwd=d, env=env, stdout=subprocess.DEVNULL, stderr=subprocess.DEVNULL)
+        if p.returncode != 0:
+            still.append(tid)
+    return n, still + bad[10:]
 
 
 def main():
